@@ -235,7 +235,10 @@ class OpsMixin:
         func = (fresh_bad_func(fk) if req.idx % 3 else BAD_FUNCS.get(fk, _plain)) if fk else self.make_func(req)
         if fk:
             req.func = func
-        req.args_obj = self.make_args(step.get("args", 0), req)
+        shape = step.get("args", 0)
+        if shape == "iter" and step.get("num", 1) > 1 and not self.expect_spawn(pr, gname, None, fk):
+            shape = 2  # a one-shot iterator serves one invocation only: use it where the request is refused or has one invocation
+        req.args_obj = self.make_args(shape, req)
         req.kwargs_obj = self.make_kwargs(step.get("kwargs"), req)
         kw = {}
         if gname is not None:
@@ -250,7 +253,7 @@ class OpsMixin:
             kw["cancel_callback"] = ccb
         if req.kwargs_obj is not None:
             kw["kwargs"] = req.kwargs_obj
-        if step.get("args", 0) or step.get("args_explicit"):
+        if shape or step.get("args_explicit"):
             kw["args"] = getattr(req, "args_passed", None) or req.args_obj
 
         def call():
@@ -906,7 +909,7 @@ class OpsMixin:
         pr.closing = False
         pr.close_at = len(self.log)
         pr.close_handle = self.loop.vf_handle_no
-        self.on_gac_return(pr, before)
+        self.on_gac_return(pr, before, rex)
         for t in pr.tasks.values():
             t.forget = "forgotten"
 
